@@ -57,7 +57,7 @@ theorem Clock.frame {σ σ' : St} (h : Clock σ) (hpc : σ'.pc = .idle ∨ ∃ i
 
 /-- constructor, clock not running -/
 theorem create_A_eq (b : Bool) (σ : St) (id : Nat) (cs : Int) (hcs : 0 < cs) (hpc : σ.pc = .idle)
-    (hf : id ∉ σ.used) (hr : σ.running = false) (hp : σ.pending = []) :
+    (hf : id ∉ σ.used) (hr : σ.running = false) (hp : σ.pending = []) (hdf : σ.deferredFlag = false) :
     steps b 3 (create σ id cs) = { σ with
        pending := [⟨Time.ofCs cs, id, σ.now, cs⟩]
        tsf := Time.zero
@@ -73,15 +73,16 @@ theorem create_A_eq (b : Bool) (σ : St) (id : Nat) (cs : Int) (hcs : 0 < cs) (h
        log := .constructed id σ.now :: .setitimer (Time.ofCs cs).toUs :: .born id σ.now cs :: σ.log } := by
   obtain ⟨_, _, hnz, hok⟩ := ofCs_facts hcs
   have hne : ¬ cs ≤ 0 := by omega
-  simp [steps, create, step, hpc, hf, hr, hp, hnz, hok, hne, insertEv]
+  simp [steps, create, step, leave, finish, hdf, hpc, hf, hr, hp, hnz, hok, hne, insertEv]
 
 theorem clock_create_A {σ : St} (h : Clock σ) (id : Nat) (cs : Int) (hcs : 0 < cs) (hpc : σ.pc = .idle)
-    (hf : id ∉ σ.used) (hr : σ.running = false) : Clock (steps false 3 (create σ id cs)) := by
+    (hf : id ∉ σ.used) (hr : σ.running = false) (hdf : σ.deferredFlag = false) :
+    Clock (steps false 3 (create σ id cs)) := by
   have hp : σ.pending = [] := by
     cases hpd : σ.pending with
     | nil => rfl
     | cons e r => have := h.run.mpr (by rw [hpd]; simp); rw [hr] at this; exact absurd this (by simp)
-  rw [create_A_eq false σ id cs hcs hpc hf hr hp]
+  rw [create_A_eq false σ id cs hcs hpc hf hr hp hdf]
   obtain ⟨hn, hu, _, _⟩ := ofCs_facts hcs
   constructor
   · exact Or.inl rfl
